@@ -614,14 +614,18 @@ func (w World) Generate(subseed uint64, o sim.Options) *sim.Result {
 		r.runInvalid(cfg)
 		return r.finish(c)
 	}
-	srv, err, permOK := startGame(cfg, r.on("C07"))
+	fc := drawFaults(rng, cfg.N())
+	srv, err, permOK := startGame(cfg, r.on("C07"), cfg.ViaBackend)
 	if err != nil {
 		r.viol("C06", "start-refused-valid-config", fmt.Sprintf("Start() returned %v", err), 0)
 		return r.finish(c)
 	}
 	r.srv = srv
 	r.startChecks(permOK, cfg)
-	h := &hand{r: r, rng: rng, fc: drawFaults(rng, cfg.N())}
+	if cfg.ViaBackend {
+		r.res.Count("fault.created-through-backend", 1)
+	}
+	h := &hand{r: r, rng: rng, fc: fc}
 	h.simulate()
 	if !r.dead && !h.closed() && r.res.Fault == "" {
 		if !h.faultsOn && len(r.steps)-h.calmAt > calmBudget(r.n) {
@@ -653,7 +657,7 @@ func (w World) Replay(c *sim.Case, o sim.Options) *sim.Result {
 		r.runInvalid(&cfg)
 		return r.finish(cc)
 	}
-	srv, err, permOK := startGame(&cfg, r.on("C07"))
+	srv, err, permOK := startGame(&cfg, r.on("C07"), cfg.ViaBackend)
 	if err != nil {
 		r.viol("C06", "start-refused-valid-config", fmt.Sprintf("Start() returned %v", err), 0)
 		return r.finish(cc)
